@@ -40,11 +40,39 @@ type person struct {
 	Age   int
 	Tags  []string
 	Email string
+	Meta  map[string]interface{}
 }
+
+// metaPool: nested maps that many objects refer to at once. Host data that is
+// only read may be shared between goroutines and between evaluators.
+var metaPool = func() []map[string]interface{} {
+	var build func(depth, salt int) map[string]interface{}
+	build = func(depth, salt int) map[string]interface{} {
+		m := map[string]interface{}{"n": depth + salt, "s": fmt.Sprint("v", salt), "l": []interface{}{1, "two", 3.5}}
+		if depth > 0 {
+			m["deep"] = build(depth-1, salt)
+			m["also"] = build(depth-1, salt+1)
+		}
+		return m
+	}
+	return []map[string]interface{}{build(4, 1), build(3, 2), build(5, 3)}
+}()
 
 func personFor(i int) person {
 	names := []string{"Steve", "bob", "Alice", "re: hello", "Zoë", "x"}
-	return person{Name: names[i%len(names)], Age: 10 + (i*7)%60, Tags: []string{"a", fmt.Sprint(i % 5)}, Email: fmt.Sprintf("u%d@example.com", i%9)}
+	return person{Name: names[i%len(names)], Age: 10 + (i*7)%60, Tags: []string{"a", fmt.Sprint(i % 5)}, Email: fmt.Sprintf("u%d@example.com", i%9), Meta: metaPool[i%len(metaPool)]}
+}
+
+// objectFor: the same data as a struct, a pointer or a map.
+func objectFor(i int) interface{} {
+	p := personFor(i)
+	switch (i / 3) % 3 {
+	case 1:
+		return &p
+	case 2:
+		return map[string]interface{}{"Name": p.Name, "Age": p.Age, "Tags": p.Tags, "Email": p.Email, "Meta": p.Meta}
+	}
+	return p
 }
 
 // sharedScripts update the persistent counter "count" on every run and
@@ -58,6 +86,13 @@ var sharedScripts = []string{
 	`count = count + 1; n = 0; foreach t in Tags { n = n + len(t); } return n > 1 && between(Age, 10, 40);`,
 	`count++; return count;`,
 	`count = count + 1; return replace(Name, /[aeiou]/, "_") != Name;`,
+	// runs that fail for some objects, inside loop and function scopes
+	`count++; foreach t in Tags { if ( t == "3" ) { return 1 % (len(t) - 1); } } return Age > 30;`,
+	`function chk(t) { local z; z = len(t); if ( t == "2" ) { return t + z; } return z; } count = count + 1; n = 0; foreach i, t in Tags { n = n + chk(t); } return n > 1;`,
+	`count += 1; foreach t in Tags { foreach c in t { if ( c == "4" ) { panic("four"); } } } return Name ~= /e/;`,
+	// nested maps that several objects share
+	`count++; d = Meta["deep"]; return d["n"] + len(Meta) > 7;`,
+	`count = count + 1; n = 0; foreach k, v in Meta { n = n + len(string(v)); } return n % 2 == 0 && Meta["also"]["deep"]["s"] == "v2";`,
 }
 
 var ownScripts = []string{
@@ -69,6 +104,9 @@ var ownScripts = []string{
 	`n = 0; foreach t in Tags { if ( t ~= /[0-9]/ ) { n++; } } return n;`,
 	`h = {"a": Age, "n": Name}; return keys(h);`,
 	`return sort(Tags, true);`,
+	`return Meta["deep"]["deep"]["n"] + len(Meta["also"]);`,
+	`n = 0; foreach k, v in Meta { n = n + len(string(v)); } return n;`,
+	`return string(Meta);`,
 }
 
 func journalWorkload(w *Workload) {
@@ -94,6 +132,7 @@ func runWorkload(w *Workload) error {
 	// sequential reference verdicts for the shared script
 	var shared *evalfilter.Eval
 	verdict := map[int]bool{}
+	fails := map[int]bool{}
 	countSensitive := false
 	if w.Shared != "" {
 		ref := evalfilter.New(w.Shared)
@@ -103,10 +142,8 @@ func runWorkload(w *Workload) error {
 		}
 		countSensitive = w.Shared == `count++; return count;`
 		for i := 0; i < 60; i++ {
-			v, err := ref.Run(personFor(i))
-			if err != nil {
-				return fmt.Errorf("harness: reference run failed: %v", err)
-			}
+			v, err := ref.Run(objectFor(i))
+			fails[i] = err != nil
 			verdict[i] = v
 		}
 		shared = evalfilter.New(w.Shared)
@@ -121,10 +158,13 @@ func runWorkload(w *Workload) error {
 				<-start
 				for k := 0; k < w.Calls; k++ {
 					i := (g*31 + k*7) % 60
-					got, err := shared.Run(personFor(i))
-					if err != nil {
-						errs <- fmt.Errorf("shared evaluator: Run failed: %v", err)
+					got, err := shared.Run(objectFor(i))
+					if (err != nil) != fails[i] {
+						errs <- fmt.Errorf("shared evaluator: object %d: Run returned error %v concurrently, but failed=%v sequentially", i, err, fails[i])
 						return
+					}
+					if err != nil {
+						continue
 					}
 					if !countSensitive && got != verdict[i] {
 						errs <- fmt.Errorf("shared evaluator: object %d got verdict %v concurrently, %v sequentially", i, got, verdict[i])
@@ -152,7 +192,7 @@ func runWorkload(w *Workload) error {
 				seq := evalfilter.New(script)
 				_ = seq.Prepare()
 				for k := 0; k < w.OwnRuns; k++ {
-					p := personFor(g + k)
+					p := objectFor(g + k)
 					a, err := e.Execute(p)
 					if err != nil {
 						errs <- fmt.Errorf("own evaluator %d: %v", g, err)
@@ -255,7 +295,7 @@ func TestC11ColdWorker(t *testing.T) {
 				return
 			}
 			for k := 0; k < 5; k++ {
-				if _, err := e.Execute(personFor(g + k)); err != nil {
+				if _, err := e.Execute(objectFor(g + k)); err != nil {
 					errs <- fmt.Errorf("goroutine %d: %v", g, err)
 					return
 				}
